@@ -777,6 +777,9 @@ class Phase(Angle):
             elif phase_out is not None and function is np.floor_divide:
                 return NotImplemented
 
+            if phase_out is self:
+                # in-place remainder: the correction below would overwrite the dividend
+                self = self.copy()
             fd = np.floor_divide(self.cycle, divisor, out=fd_out)
             corr = Phase.from_angles(divisor, factor=fd, out=phase_out)
             remainder = np.subtract(self, corr, out=corr)
